@@ -304,7 +304,7 @@ def rule_collect(ctx, M):
     for fn in ("progress", "flush"):
         b = ent[fn]
         ctx.require(b is not None, "VecConsumer::%s coroutine" % fn)
-        bi = M.info(b)
+        bi = costream.effective_body(M, M.info(b))
         aws = costream.drain_loops_exit_only_on_none(ctx, bi, "C15.COLLECT", b.def_, "%s ends only after group.next() yielded None" % fn)
         probs = []
         yields = [blk for blk in bi.body.reachable if bi.body.term(blk)["k"] == "yield"]
